@@ -104,7 +104,7 @@ add(Job('is_ipv4', 'harness/is_ipv4.c', enforce='is_ipv4', loops=True, timeout=1
         expect=['postcondition', 'loop_invariant_base', 'loop_invariant_step', 'loop_decreases', 'assigns'],
         functions=['is_ipv4'], files=['src/is_ipv4_ipv6.c'], assumptions=[A1, A5, A9],
         note='g_len <= 2^31-16; precondition from the call sites: the closing bracket follows the address'))
-add(Job('is_ipv6', 'harness/is_ipv6.c', enforce='is_ipv6', replace=['is_ipv4'], timeout=850, reach=4, mem_est=24, mem_gb=30, solvers=('minisat2',),
+add(Job('is_ipv6', 'harness/is_ipv6.c', enforce='is_ipv6', replace=['is_ipv4'], timeout=3000, reach=4, mem_est=24, mem_gb=30, solvers=('minisat2',),
         unwindset=[('is_ipv6_wrapped_for_contract_checking.0', 18)],
         expect=['postcondition', 'assigns', 'unwind'], functions=['is_ipv6'], files=['src/is_ipv4_ipv6.c'], assumptions=[A1, A5, A9],
         bounded='input length <= 45 bytes (fixed 46-byte object); within that bound the loop is fully unwound (18, unwinding assertion discharged), so the result is complete for all inputs up to 45 bytes and says nothing about longer ones',
@@ -204,6 +204,11 @@ def _options_scan(job, r):
 
 add(Job('options_scan', 'vlib/props.py', pyfunc=_options_scan, timeout=60, functions=['option macros'], files=['Makefile', 'src'],
         note='supporting text fact'))
+add(Job('safe_is_6531_local', 'harness/is_6531_local.c', enforce='is_6531_local', loops=True, defines=['-DSAFETY_ONLY'], timeout=900, reach=1,
+        extra_sources=['src/utf8_decode.c'], expect=['loop_invariant_base', 'loop_invariant_step', 'loop_decreases', 'postcondition'],
+        functions=['is_6531_local', 'utf8_decode_* (inlined)'], files=['src/is_6531_local.c', 'src/utf8_decode.c'], assumptions=[A1, A9],
+        note='safety-only contract (see the other safe_* jobs)'))
+SAFE_JOBS.append('safe_is_6531_local')
 add(Job('lemma_rank', 'harness/lemma_rank.c', loops=True, defines=['-DPART_MONO'], timeout=300, reach=1,
         expect=['loop_invariant_base', 'loop_invariant_step', 'loop_decreases', 'assertion'], functions=['dot-rank function (lemma, induction by loop contract)'], files=[],
         note='rank is defined by the step axiom, which is the only assumption inside the loop'))
